@@ -13,12 +13,18 @@ def run_bounds(ctx, mod, bounds, K=32, argv=(), reserve=25):
     prop = ctx.prop
     out = {"binary": binary, "evaluations": 0, "done": [], "per": {}, "bad": [], "errors": [], "nontrivial": set(),
            "exhaustive": True, "samples": [], "results": {}}
+    rate = None
     for (name, cases) in bounds:
         if callable(cases):
             cases = cases()
         if ctx.deadline.left() < reserve and out["done"]:
             out["exhaustive"] = False
             break
+        if rate and len(cases) > 1500 and len(cases) / rate * 1.3 > ctx.deadline.left() - reserve:      # would not finish: do not start it
+            out["exhaustive"] = False
+            out["not_started"] = name
+            break
+        t_b = time.time()
         results = simlib.eval_cases_packed(binary, cases, mod.__name__, K=K, argv=argv, tag=prop.lower())
         out["evaluations"] += len(results)
         nb = 0
@@ -35,6 +41,8 @@ def run_bounds(ctx, mod, bounds, K=32, argv=(), reserve=25):
         out["results"][name] = results
         common.log("%s %s: %d programs, %d failing, t=%.0fs" % (prop, name, len(cases), nb, time.time() - ctx.t0))
         out["done"].append(name)
+        if len(cases) >= 300:
+            rate = len(cases) / max(0.5, time.time() - t_b)
         if cases and len(out["samples"]) < 4:
             c = cases[len(cases) // 2]
             out["samples"].append({"case": c, "actors": mod.build_prog(c)["actors"]})
